@@ -949,6 +949,22 @@ func (g *Gen) evalCall(x *CExpr, env *Env) (Val, error) {
 			}
 		}
 		return Val{}, fmt.Errorf("emptyset(\"set[string]\")")
+	case "byte1", "zeros":
+		if err := evalArgs(); err != nil {
+			return Val{}, err
+		}
+		if len(args) == 1 && args[0].S == "Int" {
+			return Val{T: fmt.Sprintf("(%s %s)", name, args[0].T), S: "Str", Ty: types.NewSlice(types.Typ[types.Uint8])}, nil
+		}
+		return Val{}, fmt.Errorf("%s(int)", name)
+	case "supd":
+		if err := evalArgs(); err != nil {
+			return Val{}, err
+		}
+		if len(args) == 3 && args[0].S == "Str" && args[1].S == "Int" && args[2].S == "Int" {
+			return Val{T: fmt.Sprintf("(supd %s %s %s)", args[0].T, args[1].T, args[2].T), S: "Str", Ty: args[0].Ty}, nil
+		}
+		return Val{}, fmt.Errorf("supd(bytes, i, v)")
 	case "isnilb":
 		if err := evalArgs(); err != nil {
 			return Val{}, err
@@ -1202,9 +1218,11 @@ func (g *Gen) declarePure(pf *PureFunc, pkg *types.Package) error {
 	body, err := g.eval(pf.Body, benv)
 	g.bv = saveBV
 	if err != nil {
+		delete(g.vc.declSet, name)
 		return fmt.Errorf("pure func %s: %v", pf.Name, err)
 	}
 	if body.S != rs {
+		delete(g.vc.declSet, name)
 		return fmt.Errorf("pure func %s: body has sort %s, declared %s", pf.Name, body.S, rs)
 	}
 	g.vc.decls = append(g.vc.decls, fmt.Sprintf("(define-fun %s (%s) %s %s)", name, strings.Join(binders, " "), rs, body.T))
